@@ -79,16 +79,20 @@ UnExp(a) ==
       lp   == IF \A i \in DOMAIN a : a[i] >= 0 THEN [lprod |-> GAll(T, [r |-> ReduceMul(a)])] ELSE << >>
       len  == IF Pythagorean(a) THEN [length |-> GExact(T, [r |-> Length(a)], {Dot(a, a), Length(a)} \cup {DotTo(a, a, n) : n \in 1..Len(a)})] ELSE << >>
   IN base @@ lp @@ len
-UnCase(a) == [a |-> "Un", n |-> Len(a), ot |-> SetToSeq(OTys(Rng(a))),
+UnCase(a) == [a |-> "Un", cls |-> (IF Distinct(a) THEN "distinct" ELSE "ties"), n |-> Len(a), ot |-> SetToSeq(OTys(Rng(a))),
               arg |-> [a |-> a, wv |-> [i \in DOMAIN a |-> a[Len(a) + 1 - i] + 1]], exp |-> UnExp(a)]
 \* Pythagorean tuples (exact length) in every arrangement and sign pattern, next to the lattice tuples
 PythBase == IF N = 2 THEN {<<3, 4>>, <<5, 12>>} ELSE IF N = 3 THEN {<<2, 3, 6>>, <<1, 4, 8>>} ELSE {<<2, 4, 5, 6>>, <<1, 2, 4, 10>>}
 Arrangements(v) == {[i \in 1..Len(v) |-> sg[i] * v[p[i]]] : p \in {q \in [1..Len(v) -> 1..Len(v)] : Distinct(q)},
                                                            sg \in (IF LatN = "S" THEN [1..Len(v) -> {-1, 1}] ELSE {[i \in 1..Len(v) |-> 1]})}
 PythSet == UNION {Arrangements(v) : v \in PythBase}
+\* tuples with EQUAL components (the lattice tuples are pairwise distinct): ties of arg_max (first maximum), reductions,
+\* comparisons of a vector with itself
+TieVals == IF LatN = "S" THEN {-3, 2, 7} ELSE {1, 4, 11}
+TieSet  == {t \in [1..N -> TieVals] : ~Distinct(t)}
 UnCases == IF Group \notin {"un", "misc"} THEN <<>> ELSE
   LET ks == SetToSeq({k \in 1..M : Mine(k)})
-      ps == IF Part = 0 THEN SetToSeq(PythSet) ELSE <<>>
+      ps == IF Part = 0 THEN SetToSeq(PythSet) \o SetToSeq(TieSet) ELSE <<>>
   IN [j \in DOMAIN ks |-> UnCase(TS[ks[j]])] \o [j \in DOMAIN ps |-> UnCase(ps[j])]
 
 \* ---------------------------------------------------------------------------
@@ -188,6 +192,57 @@ ExtCases == IF ~ExtOn THEN <<>> ELSE
                           IN [CmpCase(a, IF j = 0 THEN a ELSE sq[((53 * k + 101 * j) % ME) + 1]) EXCEPT !.cls = "extremes"]]
 
 \* ---------------------------------------------------------------------------
+\* group "mca": compound assignment  a op= s  /  a op= b  where the right-hand side has ANOTHER arithmetic type u
+\*   cls "float-rhs": integer element types, right-hand side of type float / double with fractional values p / q
+\*                    (computed in the floating type, the result truncated: VecAlgebra!CAddQ ..), kinds vs (scalar) and vv
+\*   cls "wide-int-rhs": right-hand side of type int32 / int64 with values outside the narrow element types
+\*                    (computed in the wider type: x / 300 = 0 and x % 300 = x for a uint8_t x)
+\* Results whose conversion back to T is undefined (truncated value outside T) are not emitted.
+\* ---------------------------------------------------------------------------
+Fractions  == << <<1, 2>>, <<5, 2>>, <<-3, 2>>, <<3, 4>>, <<7, 2>>, <<-1, 2>>, <<9, 4>>, <<3, 2>> >>          \* p / q, none integral
+WideInts   == << 300, -300, 1000, 257, 70000, -70000, 65537, 256, 65536, 129, -129, 40000 >>
+McaFloatExp(a, p, q, bp) ==
+  LET T  == OTys(Rng(a)) \cap IntTypes
+      sp == Splat(p, Len(a))
+      add == [vs |-> CAddQ(a, sp, q), vv |-> CAddQ(a, bp, q)]
+      sub == [vs |-> CSubQ(a, sp, q), vv |-> CSubQ(a, bp, q)]
+      mul == [vs |-> CMulQ(a, sp, q), vv |-> CMulQ(a, bp, q)]
+      div == [vs |-> CDivQ(a, sp, q), vv |-> CDivQ(a, bp, q)]
+      \* every exact intermediate value must stay an exactly representable float: numerators below 2^24
+      okI(x) == GExact(T, x, Ints(x) \cup {a[i] * q + AbsS(bp[i]) : i \in DOMAIN a} \cup {a[i] * q : i \in DOMAIN a})
+  IN [add |-> okI(add), sub |-> okI(sub), mul |-> okI(mul), div |-> okI(div)]
+McaIntExp(a, s) ==
+  LET T0 == OTys(Rng(a)) \cap IntTypes
+      T  == IF s < 0 THEN T0 \ {"ui", "ul"} ELSE T0          \* a negative right-hand side becomes a huge unsigned value: not decided
+      add == [vs |-> VS(Add, a, s)]
+      sub == [vs |-> VS(Sub, a, s)]
+      mul == [vs |-> VS(Mul, a, s)]
+      div == [vs |-> VS(Div, a, s)]
+      mod == [vs |-> VS(Mod, a, s)]
+  IN [add |-> GRingV(T, add, Ints(add)), sub |-> GRingV(T, sub, Ints(sub)), mul |-> GRingV(T, mul, Ints(mul)),
+      div |-> GExact(T, div, Ints(div)), mod |-> GExact(T, mod, Ints(mod))]
+McaFloatCase(a, f, bp, u) ==
+  [a |-> "Mca", cls |-> "float-rhs", n |-> Len(a), ot |-> SetToSeq(OTys(Rng(a)) \cap IntTypes),
+   arg |-> [a |-> a, u |-> u, sn |-> f[1], sd |-> f[2], bn |-> bp], exp |-> McaFloatExp(a, f[1], f[2], bp)]
+McaIntCase(a, s, u) ==
+  [a |-> "Mca", cls |-> "wide-int-rhs", n |-> Len(a), ot |-> SetToSeq(OTys(Rng(a)) \cap IntTypes),
+   arg |-> [a |-> a, u |-> u, sn |-> s, sd |-> 1, bn |-> Splat(s, Len(a))], exp |-> McaIntExp(a, s)]
+McaStep == IF Level = 1 \/ N < 4 THEN 1 ELSE 4
+McaCases == IF Group # "mca" THEN <<>> ELSE
+  LET ks == SetToSeq({k \in 1..M : Mine(k) /\ k % McaStep = 0})
+      ks_set == {ks[x] : x \in DOMAIN ks}
+      fs == SetToSeq(ks_set \X (DOMAIN Fractions))
+      ws == SetToSeq(ks_set \X (DOMAIN WideInts))
+  IN [i \in DOMAIN fs |-> LET k == fs[i][1]
+                              j == fs[i][2]
+                              \* numerators of the vector right-hand side: a lattice tuple made odd (2 x + 1: fractional for q = 2, 4)
+                              bp == [x \in 1..N |-> 2 * TS[((P * k + 17 * j) % M) + 1][x] + 1]
+                          IN McaFloatCase(TS[k], Fractions[j], bp, IF (k + j) % 2 = 0 THEN "f" ELSE "d")]
+     \o [i \in DOMAIN ws |-> LET k == ws[i][1]
+                                 j == ws[i][2]
+                             IN McaIntCase(TS[k], WideInts[j], IF (k + j) % 2 = 0 THEN "i" ELSE "l")]
+
+\* ---------------------------------------------------------------------------
 \* group "tern": three vectors, a weight 3-vector, a lerp factor k / 4
 \* ---------------------------------------------------------------------------
 TernExp(a, b, c, f, k) ==
@@ -264,6 +319,7 @@ Cases == CASE Group = "un" -> UnCases
            [] Group = "conv" -> ConvCases
            [] Group = "tol" -> TolCases
            [] Group = "meta" -> MetaCases
+           [] Group = "mca" -> McaCases
            [] Group = "misc" -> UnCases \o CmpCases \o ExtCases \o TernCases \o ConvCases \o TolCases
            [] Group = "ext" -> ExtCases
 
